@@ -235,6 +235,17 @@ class FArr:
     """functional 1-d array: heap[sid] is a single z3 Array(BV64 -> BV dtype); extent is a z3 BV64 term"""
     def __init__(self, sid, dtype, extent): self.sid=sid; self.dtype=unlit(dtype); self.extent=extent; self.ndim=1
 
+def interp_definition(x, XP, FP, n):
+    """np.interp(x, xp, fp) for increasing xp with n knots, over the reals: fp[0] left of the table, fp[n-1] right of it,
+    the chord through the neighbouring knots inside"""
+    xs=[z3.Select(XP, j) for j in range(n)]; fs=[z3.Select(FP, j) for j in range(n)]
+    t=fs[n-1]
+    for j in range(n-2, -1, -1):
+        seg=fs[j] + (x - xs[j]) * (fs[j+1] - fs[j]) / (xs[j+1] - xs[j])
+        t=z3.If(x < xs[j+1], seg, t)
+    return z3.If(x <= xs[0], fs[0], z3.If(x >= xs[n-1], fs[n-1], t))
+
+
 class FArrR:
     """functional 1-d float64 array for the real-idealised mode: heap[sid] is a z3 Array(Int -> Real); extent a python int"""
     def __init__(self, sid, extent): self.sid=sid; self.dtype=types.float64; self.extent=extent; self.ndim=1; self.shape=(extent,)
@@ -328,7 +339,7 @@ def merge_vals(guards, vals):
 
 class Executor:
     def __init__(self, stubs=None, fpmode="fp", max_paths=20000, loop_bound=64, solver_prune=True):
-        self.fpmode=fpmode; self.trunc_defs=[]; self.interp_calls=[]
+        self.fpmode=fpmode; self.trunc_defs=[]; self.interp_calls=[]; self.interp_axioms=[]
         self.stubs = stubs or {}     # py_func name -> callable(ex, state, args, sig) -> Val
         self.ircache=IRCACHE
         self.max_paths=max_paths; self.npaths=0
@@ -550,6 +561,9 @@ class Executor:
             base=env[e.value.name]
             if isinstance(base, Arr) and e.attr=="shape":
                 return tuple(mk_int(types.int64,d) for d in base.shape)
+            if isinstance(base, FArrR) and e.attr in ("size","shape"):
+                sz = mathint(z3.IntVal(base.extent), types.int64) if self.fpmode=='real' else mk_int(types.int64, base.extent)
+                return sz if e.attr=="size" else (sz,)
             return getattr(base, e.attr)
         if op=="build_tuple":
             return tuple(env[i.name] for i in e.items)
@@ -762,6 +776,7 @@ class Executor:
     EXP=z3.Function("exp", FPS, FPS)
     INTERP=z3.Function("interp", FPS, FPS)
     INTERPR=z3.Function("interpr", z3.RealSort(), z3.RealSort())
+    INTERPT=z3.Function("interp_tab", z3.RealSort(), z3.ArraySort(z3.IntSort(), z3.RealSort()), z3.ArraySort(z3.IntSort(), z3.RealSort()), z3.RealSort())
     POW=z3.Function("pow", FPS, FPS, FPS)
     LOG=z3.Function("log", FPS, FPS)
     def uf_pow(self, a, b):
@@ -807,8 +822,10 @@ class Executor:
         if isinstance(base, FArrR):
             k=zi_of(index.t) if isinstance(index, Val) else None
             if k is None: raise Unsupported("FArrR index is not a math-mode integer")
-            state.oblig.append(("array-oob", z3.And(*state.pc, z3.Or(k<0, k>=base.extent))))
-            return Val(types.float64, z3.Select(state.heap[base.sid], k))
+            # Numba array indexing wraps negative indices (a[-1] is the last element); beyond that it is out of bounds
+            kw = z3.If(k<0, k+base.extent, k)
+            state.oblig.append(("array-oob", z3.And(*state.pc, z3.Or(kw<0, kw>=base.extent))))
+            return Val(types.float64, z3.Select(state.heap[base.sid], kw))
         if isinstance(base, FArr):
             i=cast(index, types.uint64, self)
             state.oblig.append(("array-oob", z3.And(*state.pc, z3.UGE(i.t, base.extent))))
@@ -973,6 +990,17 @@ class Executor:
             for _,fi in x.flat_indices():
                 t=t+z3.If(h[fi]!=0, z3.BitVecVal(1,rt.bitwidth), z3.BitVecVal(0,rt.bitwidth))
             return Val(rt, simp(t))
+        if f is np.searchsorted and self.fpmode=='real' and isinstance(a[0], FArrR):
+            # side='left' on a sorted table (the harness assumes sortedness): number of entries strictly below v
+            v=cast(a[1], types.float64, self); A=state.heap[a[0].sid]
+            return mathint(z3.Sum([z3.If(z3.Select(A, j) < v.t, 1, 0) for j in range(a[0].extent)]), unlit(sig.return_type))
+        if f is np.interp and self.fpmode=='real' and isinstance(a[1], FArrR) and isinstance(a[2], FArrR):
+            # uninterpreted in (x, xp-table, fp-table) -- congruence decides the unchanged code -- plus the definition of
+            # np.interp (clamped piecewise-linear through the knots) instantiated for this application
+            x=cast(a[0], types.float64, self); XP=state.heap[a[1].sid]; FP=state.heap[a[2].sid]
+            app=Executor.INTERPT(x.t, XP, FP)
+            self.interp_axioms.append(app == interp_definition(x.t, XP, FP, a[1].extent))
+            return Val(types.float64, app)
         if f is np.interp:
             # table lookup with linear interpolation: uninterpreted in x for the given (xp, fp) table objects
             x=cast(a[0], types.float64, self)
